@@ -192,6 +192,9 @@ pub struct GenCfg {
     /// the case starts with a batch in which a system joins an existing group (hints) and is the
     /// only one of the batch to declare some id, followed by an outer system that touches that id
     pub join_batch: bool,
+    /// the case starts with: a system, a registration that is rejected (unknown dependency or a taken
+    /// name), more systems, a barrier, a system, then dependents of the last systems before the barrier
+    pub rejected_then_barrier: bool,
 }
 impl GenCfg {
     pub fn base() -> GenCfg {
@@ -220,6 +223,7 @@ impl GenCfg {
             fat: false,
             placeholder_names: false,
             join_batch: false,
+            rejected_then_barrier: false,
         }
     }
     pub fn profile(name: &str) -> GenCfg {
@@ -308,6 +312,14 @@ impl GenCfg {
                 c.p_dep = 8;
                 c.p_tl = 0;
                 c.max_n = 18;
+            }
+            "rejbar" => {
+                c.rejected_then_barrier = true;
+                c.p_batch = 3;
+                c.p_tl = 3;
+                c.max_n = 6;
+                c.p_unknown_dep = 6;
+                c.p_dup_name = 6;
             }
             "joinbatch" => {
                 c.join_batch = true;
@@ -561,6 +573,36 @@ impl Gen {
                 self.next_tag += 1;
                 v.push(Op::Sys { tag, name: format!("d{}", tag), deps: vec![], r: vec![], w: vec![], t: 1 });
                 v.push(Op::Barrier);
+            }
+        }
+        if self.cfg.rejected_then_barrier && depth == 0 {
+            let mut tags = vec![];
+            for _ in 0..8 {
+                tags.push(self.next_tag);
+                self.next_tag += 1;
+            }
+            let plain = |tag: usize, deps: Vec<String>, g: &mut Gen| -> Op {
+                let (r, w) = if g.rng.chance(60) { (vec![], vec![]) } else { g.access() };
+                Op::Sys { tag, name: format!("s{}", tag), deps, r, w, t: g.time() }
+            };
+            v.push(plain(tags[0], vec![], self));
+            // one or two rejected registrations (each uses up an id)
+            for k in 0..1 + self.rng.below(2) as usize {
+                if self.rng.chance(50) {
+                    v.push(Op::Sys { tag: tags[1 + k], name: format!("s{}", tags[1 + k]), deps: vec![format!("nope{}", k)], r: vec![], w: vec![], t: 1 });
+                } else {
+                    v.push(Op::Sys { tag: tags[1 + k], name: format!("s{}", tags[0]), deps: vec![], r: vec![], w: vec![], t: 1 });
+                }
+            }
+            v.push(plain(tags[3], vec![], self));
+            v.push(plain(tags[4], vec![], self));
+            v.push(Op::Barrier);
+            v.push(plain(tags[5], vec![], self));
+            // dependents of the last systems in front of the barrier
+            v.push(plain(tags[6], vec![format!("s{}", tags[4])], self));
+            v.push(plain(tags[7], vec![format!("s{}", tags[3]), format!("s{}", tags[4])], self));
+            for t in [tags[0], tags[3], tags[4], tags[5], tags[6], tags[7]] {
+                names.push(format!("s{}", t));
             }
         }
         if self.cfg.join_batch && depth == 0 {
